@@ -1122,16 +1122,18 @@ func batteryPhased(f *font.Face, seed uint64, out *kernel.Outcome, onShaping fun
 		var all []pair
 		it := f.Cmap.Iter()
 		n := 0
-		for ; it.Next() && n <= 0x110000; n++ {
+		for ; it.Next() && n <= 2*0x110000; n++ {
 			ru, g := it.Char()
 			if n < 3000 {
 				all = append(all, pair{ru, g})
 			}
 		}
-		if n > 0x110000 {
-			// more mappings than there are code points: the enumeration of a character map is
-			// out of proportion whatever the caller does with it
-			panic(enumBreach(fmt.Sprintf("the cmap iterator yielded more than %d mappings", 0x110000)))
+		if n > 2*0x110000 {
+			// more than two mappings per existing code point: the enumeration of a character map is
+			// out of proportion whatever the caller does with it. (Not "more than one": a subtable
+			// may legitimately cover all of Unicode with one group, and groups may share their
+			// boundary code point.)
+			panic(enumBreach(fmt.Sprintf("the cmap iterator yielded more than %d mappings", 2*0x110000)))
 		}
 		sort.Slice(all, func(i, j int) bool { return all[i].r < all[j].r })
 		for n, p := range all {
